@@ -82,7 +82,9 @@ def _can_remove_block(
     if (
         isinstance(block, gtirb.CfgNode)
         and not all(
-            _is_fallthrough_edge(edge) for edge in block.incoming_edges
+            _is_fallthrough_edge(edge)
+            for edge in block.incoming_edges
+            if edge.source is not block
         )
         and not isinstance(next_block, gtirb.CfgNode)
         and not retarget_to_proxy
